@@ -63,6 +63,7 @@ theorem InvCore.congr {L : Live} {ever : List AreaT} {r r' : Rec} (h : InvCore L
   · rw [e.genes, e.sections]; exact h.sectionsSound
   · rw [e.genes, e.sections, hreg]; exact h.sectionsComplete
   · rw [e.members, e.sections]; exact h.cover
+  · rw [e.members, e.defs]; exact h.defsSub
   · rw [e.genes, e.defs]; exact h.defsSound
   · rw [e.genes, e.defs, hreg]; exact h.defsComplete
   · rw [e.genes, e.regionOf]; exact h.regionKeys
@@ -114,7 +115,7 @@ theorem InvCore.clearRegions {L : Live} {ever : List AreaT} {r : Rec} (h : InvCo
            membersComplete := fun g hg d hl => h.membersComplete g hg d (hl.mono hsub),
            sectionsSound := h.sectionsSound,
            sectionsComplete := fun g hg d s hl => h.sectionsComplete g hg d s (hl.mono hsub),
-           defsSound := h.defsSound, cover := h.cover,
+           defsSound := h.defsSound, cover := h.cover, defsSub := h.defsSub,
            defsComplete := fun g hg d hl hd => h.defsComplete g hg d (hl.mono hsub) hd,
            regionKeys := ?_, regionPtr := ?_ }
   · intro x hx
@@ -178,7 +179,7 @@ theorem Inv.drop {L : Live} {ever : List AreaT} {r : Rec} (h : Inv L ever r) (p 
            membersComplete := fun g hg d hl => hc.membersComplete g hg d (hl.mono hsub),
            sectionsSound := hc.sectionsSound,
            sectionsComplete := fun g hg d s hl => hc.sectionsComplete g hg d s (hl.mono hsub),
-           defsSound := hc.defsSound, cover := hc.cover,
+           defsSound := hc.defsSound, cover := hc.cover, defsSub := hc.defsSub,
            defsComplete := fun g hg d hl hd => hc.defsComplete g hg d (hl.mono hsub) hd,
            regionKeys := hc.regionKeys, regionPtr := hc.regionPtr }
   · cases p <;> simp [hc.protosEq, dropLists, Live.drop]
